@@ -236,7 +236,7 @@ def ob_batch(method, cmp=None, label=""):
             ctor = {"General": "fl.General()", "Proportional": "fl.Proportional()", "First": f"fl.First({v['n']}, {lit(v['t'])})",
                     "Last": f"fl.Last({v['n']}, {lit(v['t'])})", "Highest": f"fl.Highest({v['n']})", "Lowest": f"fl.Lowest({v['n']})",
                     "Threshold": f"fl.Threshold({cmp!r}, {lit(v['t'])})"}[method]
-            return "\n".join(["EXPECT_NO_EXCEPTION = False",
+            return "\n".join(["globals()['EXPECT_NO_EXCEPTION'] = False",
                               "class Fixed(fl.Term):\n    def __init__(self, name, vals): super().__init__(name); self.vals = vals\n    def membership(self, x): return np.array(self.vals, dtype=float)",
                               f"D = {lit([[v[f'd{i}_{b}'] for b in range(B)] for i in range(N)])}",
                               "X = fl.InputVariable('X', minimum=0, maximum=1, terms=[Fixed('t%d' % i, D[i]) for i in range(2)]); X.value = np.array([0.5, 0.5])",
